@@ -36,7 +36,7 @@ def _full_view(repo):
   loop; error2 = the relative violation built from fDC2 and t; eps = what
   error2 is compared with; satisfy = the flag set True right before the
   break of the projection loop."""
-  f0 = repo.get_func('mmc._BaseMMC._fit_full')
+  f0 = astutil.inline_helpers(repo, repo.get_func('mmc._BaseMMC._fit_full'))
   roles = {}
   names = lambda e: [x.id for x in ast.walk(e) if isinstance(x, ast.Name)]
   fin = [n for n in ast.walk(f0.node) if isinstance(n, ast.Assign) and
@@ -158,10 +158,8 @@ def rule_full(repo, rep):
             'derived' if ok else 'refuted', site(f, w),
             '' if ok else '%s is updated by %s without `satisfy`'
             % (old, txt))
-  # the feasibility flag is reset at the start of every cycle
-  resets = [n for n in ast.walk(f.node) if isinstance(n, ast.Assign) and
-            ast.unparse(n.targets[0]) == 'satisfy' and
-            isinstance(n.value, ast.Constant) and n.value.value is False]
+  # within one cycle the acceptance test never sees the flag of an earlier
+  # cycle: forward flow of the flag from the start of the cycle body
   pm_ = astutil.parents(f.node)
   cyc = [n for n in ast.walk(f.node) if isinstance(n, ast.For) and
          any(isinstance(x, ast.Assign) and
@@ -171,12 +169,20 @@ def rule_full(repo, rep):
   for c_ in cyc:
     if outer is None or c_.lineno < outer.lineno:
       outer = c_
-  per_cycle = outer is not None and any(r in outer.body for r in resets)
-  rep.add(R, 'mmc._BaseMMC._fit_full:satisfy-reset', 'derived' if per_cycle
-          else 'refuted', site(f, resets[0]) if resets else site(f),
-          '' if per_cycle else 'satisfy is not reset to False at the start '
-          'of every cycle: a projection that ran out of max_proj steps is '
-          'still accepted as feasible')
+  uses = [n for n in ast.walk(outer) if isinstance(n, ast.If) and
+          any(isinstance(x, ast.Name) and x.id == 'satisfy'
+              for x in ast.walk(n.test))] if outer is not None else []
+  if outer is None or not uses:
+    rep.unknown(R, 'mmc._BaseMMC._fit_full:satisfy-reset', site(f),
+                'cycle loop / acceptance test not found')
+  else:
+    _n, _b, _c, reach = astutil.flag_states(outer.body, 'satisfy', {'stale'})
+    stale = [u for u in uses if 'stale' in reach.get(id(u), {'stale'})]
+    rep.add(R, 'mmc._BaseMMC._fit_full:satisfy-reset', 'refuted' if stale
+            else 'derived', site(f, (stale or uses)[0]),
+            'the acceptance test can see the value satisfy had in an earlier '
+            'cycle: a projection that ran out of max_proj steps is still '
+            'accepted as feasible' if stale else '')
   # satisfy = True
   sats = [n for n in ast.walk(f.node) if isinstance(n, ast.Assign) and
           ast.unparse(n.targets[0]) == 'satisfy' and
@@ -304,23 +310,47 @@ def rule_projection_formula(repo, rep):
                                              'np.sqrt(np.sum(w ** 2))')
   rep.add(R, 'mmc._BaseMMC._fit_full:w_norm', 'derived' if okn else 'unknown',
           site(f), '' if okn else 'w_norm not recognised')
-  xs = defs.get('x', [])
-  proj = [n for n in xs if ast.unparse(n.value) != 'x0']
-  keep = [n for n in xs if ast.unparse(n.value) == 'x0']
-  if len(proj) == 1 and len(keep) == 1:
-    v = eval_expr(proj[0].value, scal, atoms)
-    w_ = LinM.atom('x0') + LinM.atom('w1').scale(t1 - d_)
-    rep.add(R, 'mmc._BaseMMC._fit_full:x', 'derived' if v == w_ else
-            'refuted' if v is not None else 'unknown', site(f, proj[0]),
-            '' if v == w_ else 'projection is %r, documented %r' % (v, w_))
-    conds = astutil.path_condition(f.node, keep[0])
-    okc = 'w.dot(x0) <= t' in conds or 't >= w.dot(x0)' in conds
-    rep.add(R, 'mmc._BaseMMC._fit_full:feasible-kept', 'derived' if okc else
-            'refuted', site(f, keep[0]), '' if okc else 'x = x0 is kept '
-            'under %s, documented w.x0 <= t' % conds)
-  else:
+  # the write-back of the projected point: A[:] = <E>.reshape(...) happens
+  # only when the budget is exceeded, with E = x0 + (t1 - w1.x0) w1
+  w_ = LinM.atom('x0') + LinM.atom('w1').scale(t1 - d_)
+  viol = ('t < w.dot(x0)', 'w.dot(x0) > t')
+  feas = ('t >= w.dot(x0)', 'w.dot(x0) <= t')
+  wrs = [n for n in ast.walk(f.node) if isinstance(n, ast.Assign) and
+         ast.unparse(n.targets[0]) == 'A[:]' and
+         isinstance(n.value, ast.Call) and
+         isinstance(n.value.func, ast.Attribute) and
+         n.value.func.attr == 'reshape']
+  if len(wrs) != 1:
     rep.unknown(R, 'mmc._BaseMMC._fit_full:x', site(f), 'projection '
-                'statements not recognised')
+                'statements not recognised (%d write-backs)' % len(wrs))
+  else:
+    wr = wrs[0]
+    E = wr.value.func.value
+    conds = astutil.path_condition(f.node, wr)
+    if isinstance(E, ast.Name):
+      ds = [n for n in defs.get(E.id, [])
+            if ast.unparse(n.value) != 'x0']
+      keep = [n for n in defs.get(E.id, []) if ast.unparse(n.value) == 'x0']
+      for k_ in keep:
+        kc = astutil.path_condition(f.node, k_)
+        okc = any(c in kc for c in feas)
+        rep.add(R, 'mmc._BaseMMC._fit_full:feasible-kept', 'derived' if okc
+                else 'refuted', site(f, k_), '' if okc else '%s = x0 is kept '
+                'under %s, documented w.x0 <= t' % (E.id, kc))
+      Eexpr = ds[0].value if len(ds) == 1 else None
+      conds = conds + (astutil.path_condition(f.node, ds[0])
+                       if len(ds) == 1 else [])
+    else:
+      Eexpr = E
+    v = eval_expr(Eexpr, scal, atoms) if Eexpr is not None else None
+    rep.add(R, 'mmc._BaseMMC._fit_full:x', 'derived' if v == w_ else
+            'refuted' if v is not None else 'unknown', site(f, wr),
+            '' if v == w_ else 'projection is %r, documented %r' % (v, w_))
+    okv = any(c in conds for c in viol)
+    rep.add(R, 'mmc._BaseMMC._fit_full:projected-when-violated', 'derived'
+            if okv else 'refuted', site(f, wr), '' if okv else 'the projected '
+            'point is written back under %s, documented: when w.x0 > t'
+            % conds)
   fd = defs.get('fDC2', [])
   okf = fd and ast.unparse(fd[-1].value) in ('w.dot(A.ravel())',
                                              'np.dot(w, A.ravel())',
@@ -414,8 +444,8 @@ def rule_diag(repo, rep):
   Rn = 'R-DOM:mmc-diagonal-nan-guard'
   rep.rule(Rn, 'every evaluation of the objective is followed by '
            'assert_all_finite(obj) before obj is compared or stored')
-  fd0 = repo.get_func('mmc._BaseMMC._fit_diag')
-  rep.analysed(fd0)
+  fd0 = astutil.inline_helpers(repo, repo.get_func('mmc._BaseMMC._fit_diag'))
+  rep.analysed(getattr(fd0, 'orig', fd0))
   # role: obj = the local holding the objective (built from _D_objective)
   droles = {}
   for n in ast.walk(fd0.node):
@@ -479,23 +509,32 @@ def rule_diag(repo, rep):
       rep.refuted(R, 'mmc._BaseMMC._fit_diag:%s' % nm, site(f, n),
                   'candidate %s = %s is not projected onto w >= 0'
                   % (nm, ast.unparse(v)))
-  # NaN guard
+  # NaN guard: every evaluation of the objective reaches assert_all_finite
+  # (directly or through a plain alias) before the value is used otherwise
   pm = astutil.parents(f.node)
   objs = [n for n in ast.walk(f.node) if isinstance(n, ast.Assign) and
-          ast.unparse(n.targets[0]) == 'obj']
+          isinstance(n.targets[0], ast.Name) and
+          any(isinstance(c_, ast.Call) and
+              ast.unparse(c_.func) == 'self._D_objective'
+              for c_ in ast.walk(n.value))]
   for n in objs:
     blk = getattr(pm.get(n), 'body', [])
     after = blk[blk.index(n) + 1:] if n in blk else []
+    alias = {n.targets[0].id}
     ok = False
     for s in after:
       if isinstance(s, ast.Expr) and isinstance(s.value, ast.Call) and \
               (repo.dotted(f.module, s.value.func) or '').endswith(
                   'assert_all_finite') and s.value.args and \
-              ast.unparse(s.value.args[0]) == 'obj':
+              ast.unparse(s.value.args[0]) in alias:
         ok = True
         break
+      if isinstance(s, ast.Assign) and isinstance(s.targets[0], ast.Name) and \
+              isinstance(s.value, ast.Name) and s.value.id in alias:
+        alias.add(s.targets[0].id)
+        continue
       reads = [x for x in ast.walk(s) if isinstance(x, ast.Name) and
-               x.id == 'obj']
+               x.id in alias]
       if reads:
         break
     rep.add(Rn, 'mmc._BaseMMC._fit_diag:obj', 'derived' if ok else 'refuted',
